@@ -6,6 +6,7 @@
 mod build;
 mod cfr;
 mod edit;
+mod lattice;
 mod monitor;
 mod zoo;
 mod eval;
@@ -43,6 +44,8 @@ fn main() {
         ["replay", "run"] => cfr::replay_run(&args),
         ["record", "solve"] => monitor::record(&args),
         ["record", "stop"] => stop::record(&args),
+        ["replay", "lattice"] => lattice::replay(&args),
+        ["child", "lattice"] => lattice::child(&args),
         other => {
             eprintln!("unknown command {other:?}");
             std::process::exit(2);
